@@ -163,7 +163,7 @@ def check(v, prop, families, extra_clause_props=(), also=()):
     if any(fam['family'] == 'tlccover2' for fam in families):
         # ... and of the TWO-interaction design model (RSocketMC2): frames of two streams interleaved in every modelled way
         from . import tlcsched
-        path, nb, stats = tlcsched.cover2(thorough, max_paths=6000 if thorough else 500)
+        path, nb, stats = tlcsched.cover2(thorough, max_paths=6000 if thorough else 1000)
         v.add('tlc_cover2_behaviours', nb)
         v.coverage['tlc_cover2'] = {c: dict(cov, covering_paths=p) for c, (e, p, cov) in stats.items()}
         families = [dict(fam, family='tlc2', quick=nb, thorough=nb, knobs=dict(fam.get('knobs', {}), file=path, sequential=True,
